@@ -9,7 +9,7 @@ _FUNCS = ["Gfa.rm", "Gfa.add_line", "Line.disconnect", "Disconnection._remove_fi
           "UpdateReferences._update_references", "Connection.connect", "VirtualToReal._substitute_virtual_line",
           "SameID._process_not_unique", "FieldData._set_existing_field (rename)", "Destructors._unregister_line", "Creators._register_line",
           "*/references._initialize_references"]
-_B = "base states gfa1 (fan-out, containment, paths over a link and over its complement), gfa1b (self link, hairpin, parallel links), gfa2 (E dovetail/containment/internal, G, F, O, U, nested U), gfa2b (gap in a set, two gaps on one end, nested O); "
+_B = "base states gfa1 (fan-out, containment, paths over a link and over its complement), gfa1b (self link, hairpin, parallel links), gfa2 (E dovetail/containment/internal, G, F, O, U, nested U), gfa2b (gap in a set that arrives before it, two gaps on one end, nested O, contained-first containment E); ordered groups list segments, edges and groups only, a gap is never the only item of a set, no group contains itself; "
 
 META = {
  "property": "C02",
